@@ -11,15 +11,17 @@ CLAIMS = {
         text="Static necessary conditions over all MIR paths of the five crates: every feasibility marker / InsertionSuccess is dominated by the None "
              "edge of the complete goal.evaluate on activity and route level, only confirmed modules insert into tours, constraints read cache and "
              "dimension slots with the type they are written with and every slot they read has a writer, every job/route removal is guarded by the "
-             "locked set. Not decided: that each constraint's arithmetic is right (feasible(P,S) itself), completeness of goal assembly.",
+             "locked set; hard-constraint verdicts on loads use the component-wise can_fit, never the partial order. Not decided: that each constraint's arithmetic is right (feasible(P,S) itself), completeness of goal assembly.",
         note="Assumes user relations/initial solutions consistent (documented precondition); CHA call graph; module-level allow tables with reasons.",
         ref="DESIGN.md §5 C01"),
     "C02": dict(
-        technique="job-place effect analysis (removal/arrival pairing over merged closures, guard neighbourhood, reasoned table) + final-report def-use",
+        technique="job-place effect analysis (removal/arrival pairing and move obligations over merged closures, reasoned tables), must-pass ordering, canonical-expression self-comparison lint, final-report def-use",
         text="Conservation shape: every function that removes jobs from a job place (required/ignored/unassigned/a tour/the route list) adds to another place "
              "in the same function, a direct callee, or hands them to callers that do; unpaired functions need a reasoned table row; the final report chains "
-             "unassigned and required and reports every route; the pragmatic writer writes every route and the unassigned list. Not decided: exact-once "
-             "semantics through value-level bookkeeping (predicates), vehicle/shift existence, identity of breaks/reloads.",
+             "unassigned and required and reports every route; the pragmatic writer writes every route and the unassigned list; functions that move jobs into a "
+             "place clean the places the jobs can come from (reasoned move table, no duplication); empty tours are dropped after the last state acceptance; "
+             "the leg search for the next sub-job starts after the previous one; no comparison in matching code relates a value to itself. Not decided: "
+             "exact-once semantics through value-level bookkeeping (predicates), vehicle/shift existence, identity of breaks/reloads.",
         note="std collection method names classify removal/arrival; table rows are function level with reasons.",
         ref="DESIGN.md §5 C02"),
     "C03": dict(
@@ -58,7 +60,9 @@ CLAIMS = {
         text="Static loop-guard analysis: in every EvolutionStrategy::run termination and quota are polled before the search of every generation and a "
              "positive poll leaves the loop; MaxGeneration fires iff generation >= limit (evaluated over <,=,>); composite criteria fire on any member; "
              "the insertion loop polls the quota every round and every path to return passes finalize_insertion_ctx (leftovers -> unassigned); the "
-             "long-running loops still poll the quota and quota wrappers keep the wrapped quota; estimates are clamped. Not decided: validity of the "
+             "long-running loops still poll the quota and quota wrappers keep the wrapped quota; estimates are clamped; initial construction is never cut short by "
+             "the quota itself and every built individual joins the population; decomposition merges every part back (no element-dropping adapter); configured "
+             "generation/time limits become members of the termination criterion on every path of the config builder. Not decided: validity of the "
              "returned solution itself (C01-C03 value level), wall-clock timing.",
         note="Assumes monotone external Quota implementations; closures analysed at construction site.",
         ref="DESIGN.md §5 C07"),
@@ -96,7 +100,8 @@ CLAIMS = {
     "C12": dict(
         technique="call-graph reachability of checker rules, breach-class table, dropped-Result scan, constant-feasible CFG reachability of error sites",
         text="Nothing silently unchecked: every checker rule function is reachable from CheckerContext::check, each documented breach class maps to a wired "
-             "leaf rule, groups aggregate all results, no Result in checker code is dropped, every leaf rule keeps reachable error-producing sites. "
+             "leaf rule, groups aggregate all results, no Result in checker code is dropped, every leaf rule keeps reachable error-producing sites, "
+             "capacity verdicts never use the partial order of multi-dimensional loads, no checker comparison relates a value to itself. "
              "Not decided: acceptance of all valid solutions, rejection power per breach (value-level predicates).",
         note="Breach-class table is module level with one row per documented class.",
         ref="DESIGN.md §5 C12"),
